@@ -90,7 +90,7 @@ PROPS = {
         rule="exhaustive grid: 14 item types x 4 declaration forms (+ a spaced form) x lower, upper, count in 0..5; overflowing bounds; ASCII variables: 5 declaration forms x bounds 0..4 x fill lengths 0..6",
     ),
     "C19": dict(
-        prop_file="props/C19.v", proof_files=SML_LAYOUT, tie_files=["TablesTie.v"],
+        prop_file="props/C19.v", proof_files=WIRE_PROOFS + AST_PROOFS + ["FillCompose.v", "PrintProofs.v"] + SML_LAYOUT + ["TokenProofs.v", "AsciiTokens.v", "TokenTrees.v", "LexPrinted.v", "AsciiLex.v", "LexTrees.v", "MsgRoundTrip.v"], tie_files=["TablesTie.v"],
         suites=["C19"],
         decisive=[],
     ),
